@@ -63,6 +63,12 @@ def run(ctx):
     rng = ctx.rng
     cases = [semrun.make_case(rng, profile={'accent_rest': True} if i % 3 == 0 else None) for i in range(n)]
     cases += [semrun.crlf_variant(c) for c in cases[::5]]
+    for c in cases[1::6]:
+        # phrase replacement that lengthens a word of the document: everything else still stands where it stood
+        ws = [w['w'] for w in c['words'] if w['role'] == 'copy']
+        if ws:
+            w = rng.choice(ws)
+            c['opts'] = dict(c['opts'], repl=[w + ' & ' + w + rng.choice([' zum Beispiel', ' x', ' ' + 'y' * 10])])
     ctx.stats['_rule'] = ('well-formed G-doc documents in random layouts, a fifth of them also with CR LF line breaks; every occurrence of a unique literal word in the output must carry the '
                           'offsets where the AST renderer put it; every position-counting token of the final token list must be a literal slice of the '
                           'source or a table replacement; non-trivial = at least 3 literal words in the output')
